@@ -95,11 +95,11 @@ class Ctx:
         if acc:
             self.fail(s, o, 'accepts-what-the-standard-rejects:' + why, 'rejected (reference: %s)' % why, origin)
             return False
-        if self.kw == {} and self.modname == 'stdnum.iban' and o[0] == 'verr' and not o[2].startswith(_NATIONAL_OK):
+        if self.kw == {} and self.modname == 'stdnum.iban' and o[0] == 'verr' and not _chk.site(o).startswith(_NATIONAL_OK):
             self.count('rejected_by_national_validator')
             return False
         what = ('rejects-what-the-standard-accepts:' if o[0] == 'verr' else 'raises-where-the-standard-accepts:') + o[1]
-        self.fail(s, o, what, 'returns %r' % (ref,), origin, raised_at=o[2])
+        self.fail(s, o, what, 'returns %r' % (ref,), origin, raised_at=_chk.site(o))
         return False
 
     def fail(self, s, o, relation, expected, origin, **extra):
@@ -419,11 +419,11 @@ def _dispatch(arg):
 def search(seed, tier):
     common.corpus()
     R.iban_registry()
-    jobs = [('x', j) for j in exhaustive_jobs(seed, tier)]
-    for name in FORMATS:
+    jobs = []
+    for name in FORMATS:     # module jobs first: the long ones (iban, lei, iso11649) must not trail
         for kw in FORMATS[name]['variants']:
             jobs.append(('m', (name, kw, seed, tier)))
-    # heavy module jobs first
+    jobs += [('x', j) for j in exhaustive_jobs(seed, tier)]
     results = _chk.pmap(_dispatch, jobs)
     col = _chk.Collector()
     dist = {'per_module': {}, 'totals': {}}
